@@ -5,6 +5,8 @@
 //        sm_replay rf   <N> <nb> <it> <linear 0|1> <seed>
 //        sm_replay fp   <N> <nb> <fptype> <deriv 3|4> <e1> <seed>
 //        sm_replay drift <N> <nb> <it> <seed>
+//        sm_replay wholecell <N> <nb> <it> <axis> <seed>   every whole-cell displacement |m| < N/2: out == in moved by m cells, bit for bit, zeros flowing in
+//        sm_replay weights <it>   ALL single-precision offsets f in [0,1): weights sum to one and reproduce monomials below the order (to a few ulp); unit vector at f == 0
 // exit 0: real code agrees with the oracle; exit 1: mismatch (printed); exit 3: usage
 #include <cstdio>
 #include <cstdlib>
@@ -13,6 +15,7 @@
 #include <vector>
 #include <string>
 #include <random>
+#include <thread>
 
 #include "IO/Display.cpp"
 #include "PS/PhaseSpace.cpp"
@@ -99,6 +102,66 @@ static std::vector<double> oracle_kick(const meshdata_t* in, int N, int nb, int 
 int main(int argc, char** argv) {
     if (argc < 2) return 3;
     std::string mode = argv[1];
+    if (mode == "wholecell" && argc == 7) {
+        int N = atoi(argv[2]), nb = atoi(argv[3]), it = atoi(argv[4]), axis = atoi(argv[5]);
+        unsigned seed = atoi(argv[6]);
+        PhaseSpace::resetSize(N, nb);
+        auto a = mkps(N, nb), b = mkps(N, nb);
+        std::mt19937 g(seed);
+        std::uniform_real_distribution<float> u(-3.0f, 3.0f);
+        meshdata_t* d = a->getData();
+        for (int k = 0; k < nb * N * N; k++) d[k] = (k % 11 == 0) ? 0.0f : u(g) * std::ldexp(1.0f, (int)(g() % 40) - 20);      // signed, wide dynamic range, some zeros
+        TestKick km(a, b, static_cast<SourceMap::InterpolationType>(it), axis == 0 ? KickMap::Axis::x : KickMap::Axis::y);
+        int bad = 0, shifts = 0;
+        for (int m = -(N / 2) + 2; m <= N / 2 - 3; m++) {          // displacements the centre-relative table can represent together with its stencil
+            std::vector<meshaxis_t> off(km._offset.size(), (meshaxis_t)m);
+            km.set(off);
+            meshdata_t* o = b->getData();
+            for (int k = 0; k < nb * N * N; k++) o[k] = 123.0f;        // junk that must be overwritten
+            km.apply();
+            shifts++;
+            for (int n = 0; n < nb; n++) for (int x = 0; x < N; x++) for (int y = 0; y < N; y++) {
+                int sx = axis == 0 ? x + m : x, sy = axis == 0 ? y : y + m;
+                float want = (sx >= 0 && sx < N && sy >= 0 && sy < N) ? d[(n * N + sx) * N + sy] : 0.0f;
+                float got = o[(n * N + x) * N + y];
+                // bit for bit, except that a zero may come out with either sign (0*x + 1*(-0) + 0*y = +0)
+                bool same = std::memcmp(&want, &got, sizeof(float)) == 0 || (want == 0.0f && got == 0.0f);
+                if (!same) { if (bad < 5) printf("MISMATCH wholecell m=%d bunch=%d x=%d y=%d real_code=%.9g (0x%08x) expected=%.9g\n", m, n, x, y, got, *(unsigned*)&got, want); bad++; }
+            }
+        }
+        printf("wholecell: %d mismatching cells over %d displacements (N=%d nb=%d it=%d axis=%d)\n", bad, shifts, N, nb, it, axis);
+        return bad ? 1 : 0;
+    }
+    if (mode == "weights" && argc == 3) {
+        // exhaustive over the finite domain: every float in [0,1) (2^30 - 2^23 values plus subnormals), scheme `it`
+        int it = atoi(argv[2]);
+        const int NT = 16;
+        std::vector<unsigned long> bad(NT, 0);
+        std::vector<double> worst(NT, 0.0);
+        std::vector<std::thread> th;
+        const unsigned last = 0x3F7FFFFFu;      // largest float below 1
+        for (int t = 0; t < NT; t++) th.emplace_back([&, t]() {
+            interpol_t ic[4];
+            for (unsigned long bits = t; bits <= last; bits += NT) {
+                unsigned bb = (unsigned)bits; float f; std::memcpy(&f, &bb, 4);
+                SourceMap::calcCoefficiants(ic, f, it);
+                double s = 0, m1 = 0, m2 = 0, m3 = 0, mag = 0;
+                for (int j = 0; j < it; j++) { double node = NODE0[it] + j; s += ic[j]; m1 += ic[j] * node; m2 += ic[j] * node * node; m3 += ic[j] * node * node * node; mag += std::fabs(ic[j]) * (1 + std::fabs(node * node * node)); }
+                double fd = f, tol = 8 * 5.96e-8 * (1 + mag);
+                double e = std::fabs(s - 1);
+                if (it >= 2) e = std::max(e, std::fabs(m1 - fd));
+                if (it >= 3) e = std::max(e, std::fabs(m2 - fd * fd));
+                if (it >= 4) e = std::max(e, std::fabs(m3 - fd * fd * fd));
+                if (bits == 0) { for (int j = 0; j < it; j++) { double want = (NODE0[it] + j == 0) ? 1.0 : 0.0; if (ic[j] != want) e = 1; } }
+                if (e > worst[t]) worst[t] = e;
+                if (!(e <= tol)) bad[t]++;
+            }
+        });
+        for (auto& x : th) x.join();
+        unsigned long nbad = 0; double w = 0; for (int t = 0; t < NT; t++) { nbad += bad[t]; w = std::max(w, worst[t]); }
+        printf("weights: scheme %d, %lu offsets with a defect above 8 ulp of the weight magnitudes, worst defect %.3g, %u offsets enumerated\n", it, nbad, w, last + 1);
+        return nbad ? 1 : 0;
+    }
     if (mode == "kick" && argc == 8) {
         int N = atoi(argv[2]), nb = atoi(argv[3]), it = atoi(argv[4]), axis = atoi(argv[5]), lb = atoi(argv[6]);
         unsigned seed = atoi(argv[7]);
